@@ -630,8 +630,11 @@ func (h *httpServerHandler) handleGet(ctx context.Context, w http.ResponseWriter
 	<-connCtx.Done()
 
 	// Clean up connection
+	// Remove only this stream's own entry: a newer stream may have replaced it already.
 	h.getSSEConnectionsLock.Lock()
-	delete(h.getSSEConnections, session.GetID())
+	if current, ok := h.getSSEConnections[session.GetID()]; ok && current == conn {
+		delete(h.getSSEConnections, session.GetID())
+	}
 	h.getSSEConnectionsLock.Unlock()
 	h.logger.Infof("GET SSE connection closed, session ID: %s", session.GetID())
 }
